@@ -6,7 +6,7 @@ import subprocess
 
 HERE = os.path.dirname(os.path.dirname(os.path.abspath(__file__)))
 
-A_NOTE = ('Bounded: holds for every weight assignment of the listed topologies only (bounds in evidence). Trusted: z3 4.8.12, the symx '
+A_NOTE = ('Bounded: holds for every weight assignment of the listed small topologies, and for every value of one symbolic weight on the seeded 6-9 vertex slices (DESIGN.md 12.1), only (bounds in evidence). Trusted: z3 4.8.12, the symx '
           'value-type encoding (validated per run by replaying leaf models on the real double/int builds), the TBB scheduler shim, '
           'the oracles in symx/oracle.hpp.')
 
